@@ -293,6 +293,367 @@ def translate_function(src, name):
     return "\n".join(lines), ps.ints
 
 
+# ----------------------------------------------------------------------------- C procedures with loops
+
+PROC = "phpy_get_thermal_properties"
+TOKEN2 = re.compile(r"\s*(?:(\d+\.\d*(?:[eE][-+]?\d+)?|\.\d+(?:[eE][-+]?\d+)?|\d+[eE][-+]?\d+)|(\d+)|([A-Za-z_]\w*)|(\+\+|\+=|&&|<=|>=|==|!=|.))", re.S)
+
+
+def tokenize2(s):
+    out, pos = [], 0
+    s = s.rstrip()
+    while pos < len(s):
+        m = TOKEN2.match(s, pos)
+        if not m:
+            raise Unsupported("cannot tokenize at %r" % s[pos:pos + 20])
+        pos = m.end()
+        if m.group(1):
+            out.append(("float", m.group(1)))
+        elif m.group(2):
+            out.append(("int", m.group(2)))
+        elif m.group(3):
+            out.append(("id", m.group(3)))
+        elif m.group(4) and not m.group(4).isspace():
+            out.append(("op", m.group(4)))
+    return out
+
+
+def find_procedure(src, name):
+    m = re.search(r"\bvoid\s+%s\s*\(([^)]*)\)\s*\{" % re.escape(name), src)
+    if not m:
+        raise Unsupported("definition of %s not found" % name)
+    i, depth = m.end(), 1
+    while depth:
+        if i >= len(src):
+            raise Unsupported("unbalanced braces in %s" % name)
+        depth += {"{": 1, "}": -1}.get(src[i], 0)
+        i += 1
+    return m.group(1), src[m.end():i - 1]
+
+
+class ProcParser:
+    """Loop subset:
+
+        void NAME(double *out, const double *a, const int64_t *w, const int64_t n, const double c, const int flag) {
+            int64_t i, j, k;  double f;  double *tp;
+            tp = (double *)malloc(sizeof(double) * <int expr>);      (contents indeterminate: a parameter of the Lean term)
+            for (v = 0; v < <int expr>; v++) { stmts }
+            if (<double> > <double> && ...) { stmts }                (no else)
+            scalar = <double expr>;   arr[<int expr>] = <double expr>;   arr[<int expr>] += <double expr>;
+            free(tp); tp = NULL;                                     (ignored)
+        }
+        #ifdef _OPENMP / #pragma omp … / #endif are dropped: the term has the sequential semantics
+        (thread-independence is C13's obligation).
+
+    int64 loop counters / sizes are `Nat`; an `int64_t` array read inside double arithmetic is the
+    promoted double (`weights : Nat → α`).  The state of the mutable objects (output array, malloc'd
+    arrays, scalar locals) is a generated structure; every `for` becomes `CLoop.forN`, every loop a
+    separate definition `<NAME>_for<k>` (numbered in source order) so that proofs can address them.
+    """
+
+    def __init__(self, name, params_s, body, known_funcs):
+        self.name = name
+        self.known = known_funcs  # name -> list of param kinds
+        self.params = []  # (name, kind) kind in outarr, arr, iarr, nat, double, int
+        for p in params_s.split(","):
+            p = " ".join(p.split())
+            m = re.fullmatch(r"(const )?(double|int64_t|int) ?(\*)? ?([A-Za-z_]\w*)", p)
+            if not m:
+                raise Unsupported("%s: parameter %r" % (name, p))
+            const, ty, ptr, nm = m.groups()
+            if ptr:
+                if ty == "double":
+                    kind = "arr" if const else "outarr"
+                elif ty == "int64_t" and const:
+                    kind = "iarr"
+                else:
+                    raise Unsupported("%s: parameter %r" % (name, p))
+            else:
+                if not const:
+                    raise Unsupported("%s: non-const scalar parameter %r" % (name, p))
+                kind = {"double": "double", "int64_t": "nat", "int": "int"}[ty]
+            self.params.append((nm, kind))
+        self.kind = dict(self.params)
+        self.loopvars_decl = set()
+        self.scalars = []  # double locals (state fields)
+        self.larrs = []  # malloc'd double arrays (state fields)
+        self.ints = set()
+        self.loops = []  # emitted loop definitions (text)
+        self.counter = 0
+        body = self.preprocess(body)
+        self.t = tokenize2(body)
+        self.i = 0
+
+    # ---- declarations, malloc/free, preprocessor
+    def preprocess(self, body):
+        lines = []
+        for ln in body.split("\n"):
+            st = ln.strip()
+            if st.startswith("#"):
+                if not re.fullmatch(r"#ifdef _OPENMP|#endif|#pragma omp parallel for( private\([\w, ]*\))?", st):
+                    raise Unsupported("%s: preprocessor line %r" % (self.name, st))
+                continue
+            lines.append(ln)
+        body = "\n".join(lines)
+
+        def decl(m):
+            ty, names = m.group(1), m.group(2)
+            for v in names.split(","):
+                v = v.strip()
+                if ty == "double" and re.fullmatch(r"\*\s*[A-Za-z_]\w*", v):
+                    self.larrs.append(v.lstrip("* "))
+                elif ty == "double" and re.fullmatch(r"[A-Za-z_]\w*", v):
+                    self.scalars.append(v)
+                elif ty == "int64_t" and re.fullmatch(r"[A-Za-z_]\w*", v):
+                    self.loopvars_decl.add(v)
+                else:
+                    raise Unsupported("%s: declaration %r %r" % (self.name, ty, v))
+            return " "
+
+        while True:
+            m = re.match(r"\s*(double|int64_t)\s+([^;=()]*);", body)
+            if not m:
+                break
+            decl(m)
+            body = body[m.end():]
+        self.malloc = {}
+        for a in self.larrs:
+            m = re.search(r"\b%s\s*=\s*\(double\s*\*\)\s*malloc\(sizeof\(double\)\s*\*([^;]*)\);" % a, body)
+            if not m:
+                raise Unsupported("%s: local array %s is not malloc'd in the recognised form" % (self.name, a))
+            self.malloc[a] = " ".join(m.group(1).split())
+            body = body[:m.start()] + body[m.end():]
+            body, n1 = re.subn(r"\bfree\(%s\);" % a, " ", body)
+            body, n2 = re.subn(r"\b%s\s*=\s*NULL;" % a, " ", body)
+            if n1 != 1:
+                raise Unsupported("%s: %s is not freed exactly once" % (self.name, a))
+        return body
+
+    def peek(self, k=0):
+        return self.t[self.i + k] if self.i + k < len(self.t) else (None, None)
+
+    def eat(self, kind=None, val=None):
+        k, v = self.peek()
+        if (kind and k != kind) or (val is not None and v != val):
+            raise Unsupported("%s: expected %s %s, found %s %r" % (self.name, kind, val, k, v))
+        self.i += 1
+        return v
+
+    # ---- integer (index / bound) expressions over loop variables, nat parameters, literals
+    def iexpr(self, env):
+        e = self.iterm(env)
+        while self.peek() == ("op", "+"):
+            self.eat()
+            e = "(%s + %s)" % (e, self.iterm(env))
+        return e
+
+    def iterm(self, env):
+        e = self.iatom(env)
+        while self.peek() == ("op", "*"):
+            self.eat()
+            e = "(%s * %s)" % (e, self.iatom(env))
+        return e
+
+    def iatom(self, env):
+        k, v = self.peek()
+        if k == "int":
+            self.eat()
+            return v
+        if k == "op" and v == "(":
+            self.eat()
+            e = self.iexpr(env)
+            self.eat("op", ")")
+            return e
+        if k == "id" and (v in env or self.kind.get(v) == "nat"):
+            self.eat()
+            return v
+        raise Unsupported("%s: integer expression: unexpected %s %r" % (self.name, k, v))
+
+    # ---- double expressions
+    def dexpr(self, env):
+        e = self.dterm(env)
+        while self.peek() in (("op", "+"), ("op", "-")):
+            op = self.eat()
+            e = "(%s %s %s)" % (e, op, self.dterm(env))
+        return e
+
+    def dterm(self, env):
+        e = self.dunary(env)
+        while self.peek() in (("op", "*"), ("op", "/")):
+            op = self.eat()
+            e = "(%s %s %s)" % (e, op, self.dunary(env))
+        return e
+
+    def dunary(self, env):
+        if self.peek() == ("op", "-"):
+            self.eat()
+            return "(-%s)" % self.dunary(env)
+        return self.datom(env)
+
+    def datom(self, env):
+        k, v = self.peek()
+        if k == "int":
+            self.eat()
+            self.ints.add(int(v))
+            return "(%s : α)" % v
+        if k == "op" and v == "(":
+            self.eat()
+            e = self.dexpr(env)
+            self.eat("op", ")")
+            return e
+        if k != "id":
+            raise Unsupported("%s: double expression: unexpected %s %r" % (self.name, k, v))
+        self.eat()
+        if self.peek() == ("op", "["):
+            self.eat()
+            ix = self.iexpr(env)
+            self.eat("op", "]")
+            kd = self.kind.get(v)
+            if kd in ("arr", "iarr"):
+                return "(%s %s)" % (v, ix)
+            if kd == "outarr" or v in self.larrs:
+                return "(s.%s %s)" % (v, ix)
+            raise Unsupported("%s: %r is not an array" % (self.name, v))
+        if self.peek() == ("op", "("):
+            if v not in self.known:
+                raise Unsupported("%s: call of %r" % (self.name, v))
+            self.eat()
+            args = []
+            for n, pk in enumerate(self.known[v]):
+                if n:
+                    self.eat("op", ",")
+                if pk == "double":
+                    args.append(self.dexpr(env))
+                else:
+                    a = self.eat("id")
+                    if self.kind.get(a) != "int":
+                        raise Unsupported("%s: int argument %r of %s" % (self.name, a, v))
+                    args.append(a)
+            self.eat("op", ")")
+            return "(%s E %s)" % (v, " ".join(args))
+        if v in self.scalars:
+            return "s.%s" % v
+        if self.kind.get(v) == "double":
+            return v
+        raise Unsupported("%s: unknown identifier %r in double expression" % (self.name, v))
+
+    def cond(self, env):
+        cs = [self.cmp(env)]
+        while self.peek() == ("op", "&&"):
+            self.eat()
+            cs.append(self.cmp(env))
+        return " ∧ ".join(cs)
+
+    def cmp(self, env):
+        a = self.dexpr(env)
+        k, op = self.peek()
+        if (k, op) not in (("op", ">"), ("op", "<")):
+            raise Unsupported("%s: comparison operator %r" % (self.name, op))
+        self.eat()
+        b = self.dexpr(env)
+        return "%s < %s" % ((b, a) if op == ">" else (a, b))
+
+    # ---- statements: returns list of Lean lines transforming `s`
+    def stmts(self, env, ind):
+        out = []
+        pad = "  " * ind
+        while True:
+            k, v = self.peek()
+            if k is None or (k, v) == ("op", "}"):
+                return out
+            if (k, v) == ("id", "for"):
+                self.eat()
+                self.eat("op", "(")
+                var = self.eat("id")
+                if var not in self.loopvars_decl or var in env:
+                    raise Unsupported("%s: loop variable %r" % (self.name, var))
+                self.eat("op", "=")
+                self.eat("int", "0")
+                self.eat("op", ";")
+                self.eat("id", var)
+                self.eat("op", "<")
+                bound = self.iexpr(env)
+                self.eat("op", ";")
+                self.eat("id", var)
+                self.eat("op", "++")
+                self.eat("op", ")")
+                self.eat("op", "{")
+                self.counter += 1
+                nm = "%s_for%d" % (self.name, self.counter)
+                slot = len(self.loops)
+                self.loops.append(None)
+                body = self.stmts(env + [var], 2)
+                self.eat("op", "}")
+                sig = "".join(" (%s : Nat)" % e for e in env)
+                self.loops[slot] = ("def %s (E : ThermalEnv α)%s%s (s : %s_St α) : %s_St α :=\n  CLoop.forN %s (fun %s s =>\n%s\n    s) s"
+                                    % (nm, self.psig, sig, self.name, self.name, bound, var, "\n".join(body)))
+                out.append("%slet s := %s E%s%s s" % (pad, nm, self.pargs, "".join(" " + e for e in env)))
+                continue
+            if (k, v) == ("id", "if"):
+                self.eat()
+                self.eat("op", "(")
+                c = self.cond(env)
+                self.eat("op", ")")
+                self.eat("op", "{")
+                body = self.stmts(env, ind + 1)
+                self.eat("op", "}")
+                if self.peek() == ("id", "else"):
+                    raise Unsupported("%s: else branch" % self.name)
+                out.append("%slet s := if %s then" % (pad, c))
+                out += body
+                out.append("%s  s" % pad)
+                out.append("%selse s" % pad)
+                continue
+            if k == "id":
+                name = self.eat()
+                ix = None
+                if self.peek() == ("op", "["):
+                    self.eat()
+                    ix = self.iexpr(env)
+                    self.eat("op", "]")
+                    if not (self.kind.get(name) == "outarr" or name in self.larrs):
+                        raise Unsupported("%s: assignment to %r[...]" % (self.name, name))
+                elif name not in self.scalars:
+                    raise Unsupported("%s: assignment to %r" % (self.name, name))
+                k2, op = self.peek()
+                if (k2, op) not in (("op", "="), ("op", "+=")):
+                    raise Unsupported("%s: statement %r %r" % (self.name, name, op))
+                self.eat()
+                e = self.dexpr(env)
+                self.eat("op", ";")
+                if ix is None:
+                    if op == "+=":
+                        e = "(s.%s + %s)" % (name, e)
+                    out.append("%slet s := { s with %s := %s }" % (pad, name, e))
+                else:
+                    if op == "+=":
+                        e = "((s.%s %s) + %s)" % (name, ix, e)
+                    out.append("%slet s := { s with %s := CLoop.upd s.%s %s %s }" % (pad, name, name, ix, e))
+                continue
+            raise Unsupported("%s: statement starting with %s %r" % (self.name, k, v))
+
+    def translate(self):
+        kinds = {"outarr": "Nat → α", "arr": "Nat → α", "iarr": "Nat → α", "nat": "Nat", "double": "α", "int": "Int"}
+        self.psig = "".join(" (%s : %s)" % (n, kinds[k]) for n, k in self.params if k != "outarr")
+        self.pargs = "".join(" " + n for n, k in self.params if k != "outarr")
+        outs = [n for n, k in self.params if k == "outarr"]
+        if len(outs) != 1:
+            raise Unsupported("%s: exactly one output array expected" % self.name)
+        top = self.stmts([], 1)
+        if self.peek() != (None, None):
+            raise Unsupported("%s: trailing tokens %r" % (self.name, self.peek()))
+        fields = ["  %s : Nat → α" % outs[0]] + ["  %s : Nat → α" % a for a in self.larrs] + ["  %s : α" % f for f in self.scalars]
+        L = ["structure %s_St (α : Type) where" % self.name] + fields + [""]
+        return L, top, outs[0]
+
+
+def translate_procedure(src, name, known):
+    params_s, body = find_procedure(src, name)
+    pp = ProcParser(name, params_s, body, known)
+    struct, top, out = pp.translate()
+    return pp, struct, top, out
+
+
 def kb_literal(src):
     m = re.search(r"^#define\s+KB\s+(\S+)\s*$", src, re.M)
     if not m:
@@ -386,15 +747,23 @@ def generate(repo):
         d, i = translate_function(csrc, f)
         fdefs.append(d)
         ints |= i
+    known = {}
+    for f in FUNCS:
+        ps, _ = find_function(csrc, f)
+        known[f] = [re.fullmatch(r"\s*const\s+(double|int)\s+\w+\s*", q).group(1) for q in ps.split(",")]
+    pp, struct, top, outarr = translate_procedure(csrc, PROC, known)
     classes = "[Add α] [Sub α] [Mul α] [Div α] [Neg α]" + "".join(" [OfNat α %d]" % n for n in sorted(ints))
+    pclasses = "[LT α] [∀ a b : α, Decidable (a < b)]" + "".join(" [OfNat α %d]" % n for n in sorted(pp.ints - ints))
     L = []
     L.append("import PhononModel.Model.ThermalEnv")
+    L.append("import PhononModel.Model.CLoop")
     L.append("import PhononModel.Gen.ThermalUnits")
     L.append("/-!")
     L.append("GENERATED by tools/cexpr2lean.py from c/phonopy.c (get_free_energy, get_entropy,")
     L.append("get_heat_capacity, #define KB) — do not edit; regenerated by every `./check C10` run.")
-    L.append("libm calls and the macro KB are fields of `ThermalEnv`.")
+    L.append("libm calls and the macro KB are fields of `ThermalEnv`; loops are `CLoop.forN` over a state record.")
     L.append("-/")
+    L.append("set_option linter.unusedVariables false")
     L.append("namespace PhononModel.ThermalC")
     L.append("")
     L.append("section")
@@ -403,6 +772,21 @@ def generate(repo):
     for d in fdefs:
         L.append(d)
         L.append("")
+    L.append("/-! `%s`: mutable objects of the procedure (output array, malloc'd arrays, scalar locals) -/" % PROC)
+    L += struct
+    L.append("variable %s" % pclasses)
+    L.append("")
+    for d in reversed(pp.loops):
+        L.append(d)
+        L.append("")
+    uninit = "".join(" (%s_uninit : Nat → α)" % a for a in pp.larrs) + "".join(" (%s_uninit : α)" % f for f in pp.scalars)
+    L.append("/-- the procedure: value of `%s[]` on return (sequential semantics; `malloc`ed / uninitialised" % outarr)
+    L.append("objects start with the arbitrary contents `*_uninit`; sizes: %s) -/" % ", ".join("%s[%s]" % (a, z) for a, z in pp.malloc.items()))
+    L.append("def %s (E : ThermalEnv α) (%s : Nat → α)%s%s : Nat → α :=" % (PROC, outarr, pp.psig, uninit))
+    L.append("  let s : %s_St α := { %s }" % (PROC, ", ".join(["%s := %s" % (outarr, outarr)] + ["%s := %s_uninit" % (a, a) for a in pp.larrs] + ["%s := %s_uninit" % (f, f) for f in pp.scalars])))
+    L += top
+    L.append("  s.%s" % outarr)
+    L.append("")
     L.append("end")
     L.append("")
     L.append("/-- `#define KB %s` -/" % lit)
